@@ -5,7 +5,7 @@
    `bl k` is the bit-reversal permutation of a list of length 2^k (even positions first,
    recursively); `dft n w c` is naive Horner evaluation at w^0 .. w^(n-1). *)
 From V Require Import Base.Field C07.Dft C07.Radix2 C07.MixedRadix C07.Domain
-  C07.DftProofs C07.Radix2Proofs C07.DomainProofs C07.DegreeAware C07.NewProofs.
+  C07.DftProofs C07.Radix2Proofs C07.DomainProofs C07.DegreeAware C07.NewProofs C07.KAdicity.
 
 (* decimation in frequency (io_helper): DFT in bit-reversed order, every k, every input *)
 Theorem C07_io_is_bitreversed_dft : forall T (F : Fops T), is_field F ->
@@ -125,6 +125,18 @@ Theorem C07_radix2_size_minimal : forall T (c : fftcfg T) m, 0 <= m -> 0 <= c_tw
   end.
 Proof. exact (@radix2_size_minimal). Qed.
 
+(* k_adicity (ff/src/fields/utils.rs; used by get_root_of_unity, MixedRadix::new and
+   serial_mixed_radix_fft to split n = 2^s q^t): exact exponent of k in n, and the split *)
+Theorem C07_k_adicity_spec : forall k e u,
+  2 <= k -> 0 <= e -> 1 <= u -> ~ (k | u) -> k_adicity k (k ^ e * u) = e.
+Proof. exact k_adicity_spec. Qed.
+Theorem C07_k_adicity_q_part : forall q s t,
+  3 <= q -> Z.odd q = true -> 0 <= s -> 0 <= t -> k_adicity q (2 ^ s * q ^ t) = t.
+Proof. exact k_adicity_q_part'. Qed.
+Theorem C07_k_adicity_two_part : forall q s t,
+  Z.odd q = true -> 1 <= q -> 0 <= s -> 0 <= t -> k_adicity 2 (2 ^ s * q ^ t) = s.
+Proof. exact k_adicity_two_part. Qed.
+
 (* non-vacuity: F_17, w = 2 has 2^4 = -1 (order 8), coset offset 3, an input of length 8 *)
 Example C07_example_prim_root : pown (ZpOps 17) 2 4 = fneg (ZpOps 17) (f1 (ZpOps 17)).
 Proof. vm_compute. reflexivity. Qed.
@@ -139,3 +151,369 @@ Proof. vm_compute. split; reflexivity. Qed.
 Example C07_example_size : radix2_compute_size (mkCfg 6 0 None None None) 33 = Some 64
   /\ radix2_compute_size (mkCfg (T:=Z) 6 0 None None None) 65 = None.
 Proof. vm_compute. split; reflexivity. Qed.
+
+(* ====================================================================================== *)
+(* Extension: mixed radix, degree-aware FFT in full, Lagrange coefficients, fft (ifft x),   *)
+(* mixed domain sizes, the large-subgroup root.  Proof files: C07/MixedPerm.v, MixedPass.v, *)
+(* MixedSpec.v, MixedDomain.v, DegreeAwareFull.v, Lagrange.v, FftIfft.v, MixedSize.v,       *)
+(* RootLarge.v.  `stride d r l cnt x` = the cnt elements of x at positions l, l+r, l+2r, ..; *)
+(* `fam d rs m0 x` = the decimation family of x for the radix list rs (leaves of length m0); *)
+(* `Pn rs i` = mixed-radix digit reversal of i; `nfe F n` = 1+...+1 (n times);              *)
+(* `sumn F n f` = f 0 + ... + f (n-1).                                                      *)
+(* ====================================================================================== *)
+From V Require Import C07.MixedPerm C07.MixedPass C07.MixedSpec C07.MixedDomain
+  C07.DegreeAwareFull C07.Lagrange C07.FftIfft C07.MixedSize C07.RootLarge.
+
+(* ---------- serial_mixed_radix_fft is a DFT ---------- *)
+(* the index permutation: the cycle-following scatter by mixed_radix_fft_permute places input
+   index i at its mixed-radix digit-reversed position, i.e. lays out the leaves of the
+   decimation family (s radix-2 levels, then t radix-q levels) in order *)
+Theorem C07_mixed_permute_is_digit_reversal : forall s t q i, (1 <= q)%nat ->
+  mixed_radix_fft_permute s t (Z.of_nat q) (Z.of_nat (2 ^ s * q ^ t)) (Z.of_nat i) =
+  Z.of_nat (Pn (repeat 2%nat s ++ repeat q t) i).
+Proof. exact mixed_permute_spec. Qed.
+Theorem C07_mixed_scatter_spec : forall T (F : Fops T) s t q (a : list T), (1 <= q)%nat ->
+  length a = (2 ^ s * q ^ t)%nat ->
+  scatter F (mixed_radix_fft_permute s t (Z.of_nat q) (Z.of_nat (length a))) a =
+  concat (fam (f0 F) (repeat 2%nat s ++ repeat q t) 1 a).
+Proof. exact (@scatter_mixed). Qed.
+
+(* one merge pass, arbitrary radix q >= 1 (Cooley-Tukey): the q interleaved DFT_m's of the residue
+   classes of z, twisted by w^(j l) and combined with the q-th roots table [1, w^m, w^2m, ..],
+   give DFT_{m q} of z; only w^(m q) = 1 is needed *)
+Theorem C07_merge_pass_radix_q : forall T (F : Fops T), is_field F ->
+  forall q m w z, (1 <= q)%nat -> (1 <= m)%nat -> length z = (m * q)%nat ->
+  pown F w (m * q) = f1 F ->
+  merge_chunk F (Z.of_nat q) m w (powers F q (pown F w m) (f1 F))
+    (flat_map (fun l => dft F m (pown F w q) (stride (f0 F) q l m z)) (seq 0 q))
+  = dft F (m * q) w z.
+Proof. exact (@merge_chunk_spec). Qed.
+(* one radix-2 pass (butterflies), needs w^m = -1 *)
+Theorem C07_merge_pass_radix_2 : forall T (F : Fops T), is_field F ->
+  forall m w z, length z = (2 * m)%nat -> pown F w m = fneg F (f1 F) ->
+  radix2_chunk F m w (flat_map (fun l => dft F m (pown F w 2) (stride (f0 F) 2 l m z)) (seq 0 2))
+  = dft F (2 * m) w z.
+Proof. exact (@radix2_chunk_spec). Qed.
+
+(* mixed_radix_spec: n = 2^s q^t (q odd >= 3), omega^n = 1, omega^(n/2) = -1 when s >= 1:
+   permutation + t q-ary merge passes + s radix-2 passes = naive DFT, every input of length n
+   (the assert of the Rust code holds: Some) *)
+Theorem C07_serial_mixed_radix_fft_spec : forall T (F : Fops T), is_field F ->
+  forall (q s t : nat) omega (a : list T),
+  (3 <= q)%nat -> Z.odd (Z.of_nat q) = true -> length a = (2 ^ s * q ^ t)%nat ->
+  pown F omega (2 ^ s * q ^ t) = f1 F ->
+  ((1 <= s)%nat -> pown F omega (2 ^ (s - 1) * q ^ t) = fneg F (f1 F)) ->
+  serial_mixed_radix_fft F (Z.of_nat q) a omega (Z.of_nat s) = Some (dft F (2 ^ s * q ^ t) omega a).
+Proof. exact (@serial_mixed_radix_fft_spec). Qed.
+
+(* MixedRadixEvaluationDomain::fft_in_place = values at offset * gen^i in domain order,
+   subgroup and coset, shorter inputs zero padded *)
+Theorem C07_mixed_fft_spec : forall T (F : Fops T), is_field F -> eqb_correct F ->
+  forall (q s t : nat) (d : domain T) coeffs,
+  (3 <= q)%nat -> Z.odd (Z.of_nat q) = true ->
+  d_size d = Z.of_nat (2 ^ s * q ^ t) -> d_log d = Z.of_nat s ->
+  pown F (d_gen d) (2 ^ s * q ^ t) = f1 F ->
+  ((1 <= s)%nat -> pown F (d_gen d) (2 ^ (s - 1) * q ^ t) = fneg F (f1 F)) ->
+  (length coeffs <= 2 ^ s * q ^ t)%nat ->
+  mixed_fft F (Z.of_nat q) d coeffs = Some (dft_coset F (2 ^ s * q ^ t) (d_offset d) (d_gen d) coeffs).
+Proof. exact (@mixed_fft_spec). Qed.
+
+(* GeneralEvaluationDomain::fft_in_place (dispatch on the variant; radix-2 variant: t = 0, both
+   sides of the degree-aware threshold) = the naive specification used by the `fft_naive` op *)
+Theorem C07_domain_fft_naive : forall T (F : Fops T), is_field F -> eqb_correct F ->
+  forall (q s t : nat) (d : domain T) coeffs,
+  (3 <= q)%nat -> Z.odd (Z.of_nat q) = true ->
+  d_size d = Z.of_nat (2 ^ s * q ^ t) -> d_log d = Z.of_nat s ->
+  (d_mixed d = false -> t = 0%nat) ->
+  pown F (d_gen d) (2 ^ s * q ^ t) = f1 F ->
+  ((1 <= s)%nat -> pown F (d_gen d) (2 ^ (s - 1) * q ^ t) = fneg F (f1 F)) ->
+  (length coeffs <= 2 ^ s * q ^ t)%nat ->
+  domain_fft F (Z.of_nat q) d coeffs = Some (naive_fft F d coeffs).
+Proof. exact (@domain_fft_naive). Qed.
+
+(* the inverse DFT for every n (orthogonality of the characters of a primitive n-th root) *)
+Theorem C07_dft_inverse : forall T (F : Fops T), is_field F ->
+  forall n w wi (x : list T), (1 <= n)%nat -> length x = n ->
+  pown F w n = f1 F -> (forall i, (0 < i < n)%nat -> pown F w i <> f1 F) -> fmul F w wi = f1 F ->
+  dft F n wi (dft F n w x) = map (fmul F (nfe F n)) x.
+Proof. exact (@dft_dft_inv). Qed.
+
+(* MixedRadixEvaluationDomain: ifft (fft x) = x, subgroup and coset; gen of exact order n,
+   gen_inv / offset_inv / size_inv the inverses the constructor stores *)
+Theorem C07_mixed_ifft_fft_id : forall T (F : Fops T), is_field F ->
+  forall (q s t : nat) (d : domain T) x,
+  (3 <= q)%nat -> Z.odd (Z.of_nat q) = true ->
+  d_size d = Z.of_nat (2 ^ s * q ^ t) -> d_log d = Z.of_nat s ->
+  pown F (d_gen d) (2 ^ s * q ^ t) = f1 F ->
+  (forall i, (0 < i < 2 ^ s * q ^ t)%nat -> pown F (d_gen d) i <> f1 F) ->
+  ((1 <= s)%nat -> pown F (d_gen d) (2 ^ (s - 1) * q ^ t) = fneg F (f1 F)) ->
+  fmul F (d_gen d) (d_gen_inv d) = f1 F -> fmul F (d_offset d) (d_offset_inv d) = f1 F ->
+  fmul F (nfe F (2 ^ s * q ^ t)) (d_size_inv d) = f1 F ->
+  length x = (2 ^ s * q ^ t)%nat ->
+  match mixed_fft F (Z.of_nat q) d x with
+  | Some y => mixed_ifft F (Z.of_nat q) d y
+  | None => None
+  end = Some x.
+Proof. exact (@mixed_ifft_fft_id). Qed.
+
+(* ---------- degree-aware FFT in full (replaces the missing part of C07_degree_aware_skip_partial) ---------- *)
+(* the partial swap loop + chunk duplication produce exactly dupA *)
+Theorem C07_partial_swap_dup : forall T (F : Fops T) k log_d (c2 : list T) (num : Z),
+  length c2 = (2 ^ k)%nat -> (log_d <= k)%nat -> num = Z.of_nat (2 ^ log_d) ->
+  (if Nat.ltb 1 (2 ^ (k - log_d))
+   then duplicate_initials F (partial_bitrev_swap F c2 num k) (2 ^ (k - log_d))
+   else partial_bitrev_swap F c2 num k) = dupA F k (k - log_d) c2.
+Proof. exact (@pbs_dup_spec). Qed.
+Theorem C07_degree_aware_fft_spec : forall T (F : Fops T), is_field F -> eqb_correct F ->
+  forall k gen offset (c : list T), (length c <= 2 ^ k)%nat -> prim_root F k gen ->
+  degree_aware_fft F k gen offset c = Some (dft_coset F (2 ^ k) offset gen c).
+Proof. exact (@degree_aware_fft_spec). Qed.
+(* Radix2EvaluationDomain::fft_in_place, both sides of the len*4 <= size threshold *)
+Theorem C07_radix2_fft_spec : forall T (F : Fops T), is_field F -> eqb_correct F ->
+  forall (d : domain T) k (coeffs : list T),
+  d_size d = Z.of_nat (2 ^ k) -> d_log d = Z.of_nat k -> prim_root F k (d_gen d) ->
+  (length coeffs <= 2 ^ k)%nat ->
+  radix2_fft F d coeffs = Some (dft_coset F (2 ^ k) (d_offset d) (d_gen d) coeffs).
+Proof. exact (@radix2_fft_spec). Qed.
+
+(* ---------- fft (ifft x) = x (radix 2, subgroup and coset) ---------- *)
+Theorem C07_io_oi : forall T (F : Fops T), is_field F ->
+  forall (k : nat) w w' x, length x = (2 ^ k)%nat -> fmul F w w' = f1 F ->
+  io_aux F k w (oi_aux F k 0 w' x) = map (fmul F (pown F (fadd F (f1 F) (f1 F)) k)) x.
+Proof. exact (@io_oi). Qed.
+Theorem C07_fft_ifft_id : forall T (F : Fops T), is_field F ->
+  forall (k : nat) w wi h hi si x, length x = (2 ^ k)%nat ->
+  fmul F w wi = f1 F -> fmul F h hi = f1 F ->
+  fmul F (pown F (fadd F (f1 F) (f1 F)) k) si = f1 F ->
+  in_order_fft F k w h (in_order_ifft F k wi h hi si x) = x.
+Proof. exact (@fft_ifft_id). Qed.
+
+(* ---------- evaluate_all_lagrange_coefficients ---------- *)
+(* domain of size n, gen a primitive n-th root of unity, offset <> 0, n <> 0 in the field *)
+Theorem C07_lagrange_length : forall T (F : Fops T), is_field F ->
+  forall (d : domain T) (n : nat) (tau : T), d_size d = Z.of_nat n ->
+  length (evaluate_all_lagrange_coefficients F d tau) = n.
+Proof. exact (@lagrange_length). Qed.
+(* tau = element(j): L_i(a_j) = delta_ij *)
+Theorem C07_lagrange_in_domain : forall T (F : Fops T), is_field F -> eqb_correct F ->
+  forall (d : domain T) (n j : nat) (tau : T), d_size d = Z.of_nat n ->
+  pown F (d_gen d) n = f1 F -> (forall i, (0 < i < n)%nat -> pown F (d_gen d) i <> f1 F) ->
+  d_offset d <> f0 F -> d_offset_pow_size d = pown F (d_offset d) n ->
+  (j < n)%nat -> tau = fmul F (d_offset d) (pown F (d_gen d) j) ->
+  evaluate_all_lagrange_coefficients F d tau = map (fun i => if Nat.eqb i j then f1 F else f0 F) (seq 0 n).
+Proof. exact (@lagrange_in_domain). Qed.
+(* the branch test: the vanishing polynomial is zero exactly at the domain elements *)
+Theorem C07_vanishing_zero_iff_in_domain : forall T (F : Fops T), is_field F -> eqb_correct F ->
+  forall (d : domain T) (n : nat) (tau : T), d_size d = Z.of_nat n -> (1 <= n)%nat ->
+  pown F (d_gen d) n = f1 F -> (forall i, (0 < i < n)%nat -> pown F (d_gen d) i <> f1 F) ->
+  d_offset d <> f0 F -> d_offset_pow_size d = pown F (d_offset d) n -> nfe F n <> f0 F ->
+  (evaluate_vanishing_polynomial F d tau = f0 F <->
+   exists j, (j < n)%nat /\ tau = fmul F (d_offset d) (pown F (d_gen d) j)).
+Proof. exact (@vanishing_zero_iff_in_domain). Qed.
+(* generic branch, closed form: L_i(tau) * n h^n (tau - a_i) = Z(tau) * a_i *)
+Theorem C07_lagrange_generic_coeff : forall T (F : Fops T), is_field F -> eqb_correct F ->
+  forall (d : domain T) (n i : nat) (tau : T), d_size d = Z.of_nat n -> (1 <= n)%nat ->
+  pown F (d_gen d) n = f1 F -> fmul F (d_gen d) (d_gen_inv d) = f1 F ->
+  d_offset d <> f0 F -> d_offset_pow_size d = pown F (d_offset d) n ->
+  d_size_fe d = nfe F n -> nfe F n <> f0 F ->
+  evaluate_vanishing_polynomial F d tau <> f0 F -> (i < n)%nat ->
+  fmul F (nth i (evaluate_all_lagrange_coefficients F d tau) (f0 F))
+         (fmul F (fmul F (nfe F n) (pown F (d_offset d) n)) (fsub F tau (fmul F (d_offset d) (pown F (d_gen d) i))))
+  = fmul F (evaluate_vanishing_polynomial F d tau) (fmul F (d_offset d) (pown F (d_gen d) i)).
+Proof. exact (@lagrange_generic_coeff). Qed.
+(* lagrange_interpolates: EVERY tau (both branches), every polynomial of degree < n:
+   sum_i L_i(tau) * f(a_i) = f(tau) *)
+Theorem C07_lagrange_interpolates : forall T (F : Fops T), is_field F -> eqb_correct F ->
+  forall (d : domain T) (n : nat) (tau : T) (c : list T), d_size d = Z.of_nat n -> (1 <= n)%nat ->
+  pown F (d_gen d) n = f1 F -> (forall i, (0 < i < n)%nat -> pown F (d_gen d) i <> f1 F) ->
+  fmul F (d_gen d) (d_gen_inv d) = f1 F -> d_offset d <> f0 F ->
+  d_offset_pow_size d = pown F (d_offset d) n -> d_size_fe d = nfe F n -> nfe F n <> f0 F ->
+  (length c <= n)%nat ->
+  sumn F n (fun i => fmul F (nth i (evaluate_all_lagrange_coefficients F d tau) (f0 F))
+                            (eval F c (fmul F (d_offset d) (pown F (d_gen d) i)))) = eval F c tau.
+Proof. exact (@lagrange_interpolates). Qed.
+
+(* ---------- best_mixed_domain_size / MixedRadix compute_size_of_domain: minimality ---------- *)
+Theorem C07_best_mixed_minimal : forall q q_adic two_adic min_size b t,
+  1 <= q -> 0 <= q_adic -> min_size <= 2 ^ 64 ->
+  0 <= b <= q_adic -> 0 <= t <= two_adic -> min_size <= q ^ b * 2 ^ t ->
+  best_mixed_domain_size q q_adic two_adic min_size <= q ^ b * 2 ^ t.
+Proof. exact best_mixed_minimal. Qed.
+Theorem C07_best_mixed_form : forall q q_adic two_adic min_size, 0 <= q_adic ->
+  best_mixed_domain_size q q_adic two_adic min_size = USIZE_MAX \/
+  exists b t, 0 <= b <= q_adic /\ 0 <= t <= two_adic /\
+              best_mixed_domain_size q q_adic two_adic min_size = q ^ b * 2 ^ t /\
+              min_size <= best_mixed_domain_size q q_adic two_adic min_size.
+Proof. exact best_mixed_form. Qed.
+Theorem C07_best_mixed_exists : forall q q_adic two_adic min_size b0 t0,
+  1 <= q -> 0 <= q_adic -> min_size <= 2 ^ 64 ->
+  0 <= b0 <= q_adic -> 0 <= t0 <= two_adic ->
+  min_size <= q ^ b0 * 2 ^ t0 -> q ^ b0 * 2 ^ t0 < USIZE_MAX ->
+  exists b t, 0 <= b <= q_adic /\ 0 <= t <= two_adic /\
+              best_mixed_domain_size q q_adic two_adic min_size = q ^ b * 2 ^ t /\
+              min_size <= q ^ b * 2 ^ t /\
+              (forall b' t', 0 <= b' <= q_adic -> 0 <= t' <= two_adic ->
+                             min_size <= q ^ b' * 2 ^ t' -> q ^ b * 2 ^ t <= q ^ b' * 2 ^ t').
+Proof. exact best_mixed_exists. Qed.
+Theorem C07_best_mixed_none : forall q q_adic two_adic min_size, 0 <= q_adic ->
+  (forall b t, 0 <= b <= q_adic -> 0 <= t <= two_adic -> q ^ b * 2 ^ t < min_size) ->
+  best_mixed_domain_size q q_adic two_adic min_size = USIZE_MAX.
+Proof. exact best_mixed_none. Qed.
+Theorem C07_mixed_compute_size_spec : forall T (c : fftcfg T) q qa m b0 t0,
+  c_small_base c = Some q -> c_small_adicity c = Some qa ->
+  3 <= q -> Z.odd q = true -> 0 <= qa -> m <= 2 ^ 64 ->
+  0 <= b0 <= qa -> 0 <= t0 <= c_two_adicity c ->
+  m <= q ^ b0 * 2 ^ t0 -> q ^ b0 * 2 ^ t0 < USIZE_MAX ->
+  mixed_compute_size c m = RSome (best_mixed_domain_size q qa (c_two_adicity c) m).
+Proof. exact (@mixed_compute_size_spec). Qed.
+
+(* ---------- get_root_of_unity, large-subgroup branch (LARGE_SUBGROUP_ROOT_OF_UNITY = L) ---------- *)
+Theorem C07_get_root_large_spec : forall T (F : Fops T), is_field F ->
+  forall (c : fftcfg T) L q qa a b,
+  c_large_root c = Some L -> c_small_base c = Some q -> c_small_adicity c = Some qa ->
+  3 <= q -> Z.odd q = true -> 0 <= a <= c_two_adicity c -> 0 <= b <= qa ->
+  get_root_of_unity F c (2 ^ a * q ^ b) =
+    RSome (pown F L (Z.to_nat (q ^ (qa - b) * 2 ^ (c_two_adicity c - a)))).
+Proof. exact (@get_root_large_spec). Qed.
+Theorem C07_get_root_large_inv : forall T (F : Fops T) (c : fftcfg T) L q qa n w,
+  c_large_root c = Some L -> c_small_base c = Some q -> c_small_adicity c = Some qa ->
+  get_root_of_unity F c n = RSome w ->
+  exists a b, 0 <= a <= c_two_adicity c /\ 0 <= b <= qa /\ n = 2 ^ a * q ^ b.
+Proof. exact (@get_root_large_inv). Qed.
+(* generator_exact_order, large branch: if L^(2^S q^qa) = 1 and L^(2^(S-1) q^qa) = -1 (facts about
+   the configuration: C16), the returned root w for n = 2^a q^b has w^n = 1 and w^(n/2) = -1 *)
+Theorem C07_get_root_large_pow_n : forall T (F : Fops T), is_field F ->
+  forall (c : fftcfg T) L q qa a b w,
+  c_large_root c = Some L -> c_small_base c = Some q -> c_small_adicity c = Some qa ->
+  3 <= q -> Z.odd q = true -> 0 <= a <= c_two_adicity c -> 0 <= b <= qa ->
+  pown F L (Z.to_nat (2 ^ c_two_adicity c * q ^ qa)) = f1 F ->
+  get_root_of_unity F c (2 ^ a * q ^ b) = RSome w ->
+  pown F w (Z.to_nat (2 ^ a * q ^ b)) = f1 F.
+Proof. exact (@get_root_large_pow_n). Qed.
+Theorem C07_get_root_large_pow_half : forall T (F : Fops T), is_field F ->
+  forall (c : fftcfg T) L q qa a b w,
+  c_large_root c = Some L -> c_small_base c = Some q -> c_small_adicity c = Some qa ->
+  3 <= q -> Z.odd q = true -> 1 <= a <= c_two_adicity c -> 0 <= b <= qa ->
+  pown F L (Z.to_nat (2 ^ (c_two_adicity c - 1) * q ^ qa)) = fneg F (f1 F) ->
+  get_root_of_unity F c (2 ^ a * q ^ b) = RSome w ->
+  pown F w (Z.to_nat (2 ^ a * q ^ b / 2)) = fneg F (f1 F).
+Proof. exact (@get_root_large_pow_half). Qed.
+
+(* ---------- non-vacuity of the extension ---------- *)
+(* F_37: 2 generates F_37^*, so 8 = 2^3 has order 12 = 2^2 * 3 (8^6 = -1) and 2 has order 36 = 2^2 * 3^2;
+   F_41: 6 generates F_41^*, 36 = 6^2 has order 20 = 2^2 * 5 *)
+Example C07_example_mixed_roots :
+  pown (ZpOps 37) 8 12 = f1 (ZpOps 37) /\ pown (ZpOps 37) 8 6 = fneg (ZpOps 37) (f1 (ZpOps 37))
+  /\ pown (ZpOps 37) 2 36 = f1 (ZpOps 37) /\ pown (ZpOps 37) 2 18 = fneg (ZpOps 37) (f1 (ZpOps 37))
+  /\ pown (ZpOps 41) 36 20 = f1 (ZpOps 41) /\ pown (ZpOps 41) 36 10 = fneg (ZpOps 41) (f1 (ZpOps 41))
+  /\ forallb (fun i => negb (pown (ZpOps 37) 8 i =? 1)) (seq 1 11) = true.
+Proof. vm_compute. repeat split; reflexivity. Qed.
+Example C07_example_mixed_fft :
+  serial_mixed_radix_fft (ZpOps 37) 3 [1;2;3;4;5;6;7;8;9;10;11;12] 8 2
+    = Some (dft (ZpOps 37) 12 8 [1;2;3;4;5;6;7;8;9;10;11;12])
+  /\ serial_mixed_radix_fft (ZpOps 37) 3 (map Z.of_nat (seq 1 36)) 2 2
+    = Some (dft (ZpOps 37) 36 2 (map Z.of_nat (seq 1 36)))
+  /\ serial_mixed_radix_fft (ZpOps 41) 5 (map Z.of_nat (seq 3 20)) 36 2
+    = Some (dft (ZpOps 41) 20 36 (map Z.of_nat (seq 3 20)))
+  /\ serial_mixed_radix_fft (ZpOps 37) 3 [5;6;7;8;9;10;11;12;13] 7 0      (* 7 = 2^32 has order 9 *)
+    = Some (dft (ZpOps 37) 9 7 [5;6;7;8;9;10;11;12;13]).
+Proof. vm_compute. repeat split; reflexivity. Qed.
+(* the size-12 coset domain 2 * <8> of F_37: size_inv = 34, gen_inv = 14, offset_inv = 19, 2^12 = 26 *)
+Example C07_example_mixed_domain :
+  let F := ZpOps 37 in
+  let d := mkDomain true 12 2 12 34 8 14 2 19 26 in
+  fmul F 8 14 = f1 F /\ fmul F 2 19 = f1 F /\ fmul F (nfe F 12) 34 = f1 F /\ pown F 2 12 = 26
+  /\ mixed_fft F 3 d [1;2;3;4;5;6;7] = Some (dft_coset F 12 2 8 [1;2;3;4;5;6;7])
+  /\ domain_fft F 3 d [1;2;3;4;5;6;7] = Some (naive_fft F d [1;2;3;4;5;6;7])
+  /\ match mixed_fft F 3 d [1;2;3;4;5;6;7;8;9;10;11;12] with Some y => mixed_ifft F 3 d y | None => None end
+     = Some [1;2;3;4;5;6;7;8;9;10;11;12]
+  /\ dft F 12 14 (dft F 12 8 [1;2;3;4;5;6;7;8;9;10;11;12]) = map (fmul F (nfe F 12)) [1;2;3;4;5;6;7;8;9;10;11;12].
+Proof. vm_compute. repeat split; reflexivity. Qed.
+(* radix2_fft on both sides of the threshold (2*4 <= 8: degree-aware; 3*4 > 8: in-order), F_17 *)
+Example C07_example_radix2_fft_both_sides :
+  let d := mkDomain false 8 3 8 15 2 9 3 6 16 in
+  d_size d = Z.of_nat (2 ^ 3) /\ d_log d = Z.of_nat 3 /\
+  pown (ZpOps 17) (d_gen d) 4 = fneg (ZpOps 17) (f1 (ZpOps 17)) /\
+  radix2_fft (ZpOps 17) d [5;7] = Some (dft_coset (ZpOps 17) 8 3 2 [5;7]) /\
+  radix2_fft (ZpOps 17) d [5;7] = degree_aware_fft (ZpOps 17) 3 2 3 [5;7] /\
+  radix2_fft (ZpOps 17) d [5;7;11] = Some (dft_coset (ZpOps 17) 8 3 2 [5;7;11]) /\
+  radix2_fft (ZpOps 17) d [5;7;11] = Some (in_order_fft (ZpOps 17) 3 2 3 [5;7;11;0;0;0;0;0]) /\
+  duplicate_initials (ZpOps 17) (partial_bitrev_swap (ZpOps 17) [1;2;3;4;5;6;7;8] 2 3) 4
+    = dupA (ZpOps 17) 3 2 [1;2;3;4;5;6;7;8].
+Proof. vm_compute. repeat split; reflexivity. Qed.
+Example C07_example_fft_ifft :
+  let F := ZpOps 17 in
+  in_order_fft F 3 2 3 (in_order_ifft F 3 9 3 6 15 [1;2;3;4;5;6;7;8]) = [1;2;3;4;5;6;7;8]
+  /\ in_order_fft F 3 2 1 (in_order_ifft F 3 9 1 1 15 [1;2;3;4;5;6;7;8]) = [1;2;3;4;5;6;7;8].
+Proof. vm_compute. split; reflexivity. Qed.
+(* Lagrange, F_17, coset 3 * <2> of size 8: the premises, tau = 11 = 3 * 2^5 in the coset, tau = 4 outside,
+   and the interpolation identity for a polynomial of degree 7 *)
+Example C07_example_lagrange :
+  let F := ZpOps 17 in
+  let d := mkDomain false 8 3 8 15 2 9 3 6 16 in
+  let pol := [5;0;11;7;1;16;2;9] in
+  forallb (fun i => negb (pown F 2 i =? 1)) (seq 1 7) = true /\ pown F 2 8 = 1 /\ nfe F 8 = 8
+  /\ evaluate_vanishing_polynomial F d 11 = 0
+  /\ evaluate_all_lagrange_coefficients F d 11 = [0;0;0;0;0;1;0;0]
+  /\ evaluate_vanishing_polynomial F d 4 = 2
+  /\ evaluate_all_lagrange_coefficients F d 4 = [12;5;11;2;8;1;14;16]
+  /\ map (fun tau => sumn F 8 (fun i => fmul F (nth i (evaluate_all_lagrange_coefficients F d tau) 0)
+                                           (eval F pol (fmul F 3 (pown F 2 i))))) [4; 11]
+     = map (eval F pol) [4; 11].
+Proof. vm_compute. repeat split; reflexivity. Qed.
+Example C07_example_mixed_size :
+  best_mixed_domain_size 3 3 7 100 = 108 /\ best_mixed_domain_size 3 2 4 145 = USIZE_MAX
+  /\ best_mixed_domain_size 5 2 31 1000 = 1024
+  /\ mixed_compute_size (mkCfg 7 0 (Some 3) (Some 3) None : fftcfg Z) 100 = RSome 108.
+Proof. vm_compute. repeat split; reflexivity. Qed.
+(* F_13: L = 2 generates F_13^* (order 12 = 2^2 * 3): the root for n = 6 is 2^2 = 4, 4^6 = 1, 4^3 = -1 *)
+Example C07_example_root_large :
+  get_root_of_unity (ZpOps 13) (mkCfg 2 5 (Some 3) (Some 1) (Some 2)) 6 = RSome 4
+  /\ get_root_of_unity (ZpOps 13) (mkCfg 2 5 (Some 3) (Some 1) (Some 2)) 5 = RNone
+  /\ pown (ZpOps 13) 2 12 = 1 /\ pown (ZpOps 13) 2 6 = 12 /\ pown (ZpOps 13) 4 6 = 1 /\ pown (ZpOps 13) 4 3 = 12.
+Proof. vm_compute. repeat split; reflexivity. Qed.
+
+(* ---------- MixedRadixEvaluationDomain::new end to end (C07/MixedNew.v) ---------- *)
+From V Require Import C07.MixedNew.
+(* configuration: LARGE_SUBGROUP_ROOT_OF_UNITY = L with L^(2^S q^qa) = 1 and L^(2^(S-1) q^qa) = -1 (C16).
+   A returned domain has size = best_mixed_domain_size (minimal admissible: C07_best_mixed_minimal)
+   = 2^a q^b within the adicities, log = a, generator = get_root_of_unity(size) satisfying the premises
+   of C07_serial_mixed_radix_fft_spec, stored inverses are inverses, unit offset *)
+Theorem C07_mixed_new_spec : forall T (F : Fops T), is_field F -> eqb_correct F ->
+  forall (c : fftcfg T) L (q : nat) qa m d,
+  c_large_root c = Some L -> c_small_base c = Some (Z.of_nat q) -> c_small_adicity c = Some qa ->
+  (3 <= q)%nat -> Z.odd (Z.of_nat q) = true -> 0 <= qa -> 0 <= c_two_adicity c ->
+  pown F L (Z.to_nat (2 ^ c_two_adicity c * Z.of_nat q ^ qa)) = f1 F ->
+  (1 <= c_two_adicity c -> pown F L (Z.to_nat (2 ^ (c_two_adicity c - 1) * Z.of_nat q ^ qa)) = fneg F (f1 F)) ->
+  mixed_new F c m = RSome d ->
+  exists a b : nat,
+    Z.of_nat a <= c_two_adicity c /\ Z.of_nat b <= qa /\
+    d_size d = best_mixed_domain_size (Z.of_nat q) qa (c_two_adicity c) m /\
+    d_size d = Z.of_nat (2 ^ a * q ^ b) /\ d_log d = Z.of_nat a /\ d_mixed d = true /\
+    pown F (d_gen d) (2 ^ a * q ^ b) = f1 F /\
+    ((1 <= a)%nat -> pown F (d_gen d) (2 ^ (a - 1) * q ^ b) = fneg F (f1 F)) /\
+    get_root_of_unity F c (d_size d) = RSome (d_gen d) /\
+    fmul F (d_gen d) (d_gen_inv d) = f1 F /\ fmul F (d_size_fe d) (d_size_inv d) = f1 F /\
+    d_size_fe d = fof F [d_size d] /\
+    d_offset d = f1 F /\ d_offset_inv d = f1 F /\ d_offset_pow_size d = f1 F.
+Proof. exact (@mixed_new_spec). Qed.
+(* ... hence fft_in_place of a domain returned by new() is naive evaluation *)
+Theorem C07_mixed_new_fft_naive : forall T (F : Fops T), is_field F -> eqb_correct F ->
+  forall (c : fftcfg T) L (q : nat) qa m d coeffs,
+  c_large_root c = Some L -> c_small_base c = Some (Z.of_nat q) -> c_small_adicity c = Some qa ->
+  (3 <= q)%nat -> Z.odd (Z.of_nat q) = true -> 0 <= qa -> 0 <= c_two_adicity c ->
+  pown F L (Z.to_nat (2 ^ c_two_adicity c * Z.of_nat q ^ qa)) = f1 F ->
+  (1 <= c_two_adicity c -> pown F L (Z.to_nat (2 ^ (c_two_adicity c - 1) * Z.of_nat q ^ qa)) = fneg F (f1 F)) ->
+  mixed_new F c m = RSome d ->
+  Z.of_nat (length coeffs) <= d_size d ->
+  mixed_fft F (Z.of_nat q) d coeffs = Some (naive_fft F d coeffs).
+Proof. exact (@mixed_new_fft_naive). Qed.
+(* F_13, L = 2 of order 12 = 2^2 * 3: new(5) has size 6 = 2 * 3, generator 4 *)
+Example C07_example_mixed_new :
+  let F := ZpOps 13 in
+  let c := mkCfg 2 5 (Some 3) (Some 1) (Some 2) in
+  pown F 2 12 = f1 F /\ pown F 2 6 = fneg F (f1 F)
+  /\ mixed_new F c 5 = RSome (mkDomain true 6 1 6 11 4 10 1 1 1)
+  /\ mixed_fft F 3 (mkDomain true 6 1 6 11 4 10 1 1 1) [1;2;3;4;5]
+     = Some (naive_fft F (mkDomain true 6 1 6 11 4 10 1 1 1) [1;2;3;4;5]).
+Proof. vm_compute. repeat split; reflexivity. Qed.
